@@ -135,9 +135,10 @@ def model_flow(prop, tier, replay, *, spec, mods, trace, mc, gens, mutators, ext
     from concurrent.futures import ThreadPoolExecutor
     with ThreadPoolExecutor(max_workers=6) as ex:
         outs = list(ex.map(gen_one, todo))
+    # generator output stays unparsed (one JSON string per behaviour) until its chunk is processed: a thorough tier
+    # holds 10^5..10^6 behaviours, and parsed behaviours + results + traces of all of them at once need tens of GB
     for (i, g, o), (b, st, _) in zip(todo, outs):
         label = g[0]
-        b = load_gen(b)
         if quick and o.get("sample") and len(b) > o["sample"]:
             b = sample(b, o["sample"], i)
             label += " (sample of %d)" % st["states_generated"]
@@ -145,51 +146,70 @@ def model_flow(prop, tier, replay, *, spec, mods, trace, mc, gens, mutators, ext
     if extra_behs:
         for k, v in extra_behs().items():
             glist[k] = v
-    behs = []
+    items = []
     for k, v in glist.items():
-        behs += v
-    number(behs)
-    byid = {b["id"]: b for b in behs}
-    t = time.time()
-    dbehs = behs
-    if not compare:    # values are the implementation's choice: the trace specification is the only judge
-        dbehs = [{"id": b["id"], "spec": b["spec"], "steps": [{"op": s["op"], "args": s.get("args", {})} for s in b["steps"]]} for b in behs]
-    res = vlib.drive(work, lib, dbehs, mods=mods, timeout=drive_timeout)
-    tdrive = time.time() - t
-    bad = [r for r in res if r["status"] != "ok"]
-    okres = [r for r in res if r["status"] == "ok"]
-    tv = sample(okres, tv_quick, 99) if quick else okres
-    t = time.time()
-    acc, rej = vlib.tlc_validate(work, trace[0], trace[1], tv, timeout=3000)
-    tval = time.time() - t
+        items += v
+    CH = len(items) if quick else 40000
+    tot = {"n": 0, "res": 0, "ok": 0, "acc": 0}
+    ntkeys = set()
     seen = set()
-    for r in bad + rej:
-        beh = byid[r["id"]]
-        sig = sig_of(r)
-        if sig_fn:
-            sig = sig_fn(sig, r, beh) or sig
-        key = json.dumps(sig, sort_keys=True)
-        if key in seen:
-            continue
-        seen.add(key)
-        r2 = confirm(work, lib, beh if compare else {"id": beh["id"], "spec": beh["spec"], "steps": [{"op": s["op"], "args": s.get("args", {})} for s in beh["steps"]]}, mods)
-        again = r2["status"] != "ok"
-        if not again and "rejected_at" in r:
-            a, rj = vlib.tlc_validate(work, trace[0], trace[1], [r2], shards=1, tag="cf")
-            again = bool(rj)
-        if again:
-            rep.violation(sig, beh)
-    nt = set(vlib.beh_key(b) for b in behs if nontrivial(b, mutators))
-    mid = behs[len(behs) // 2]["steps"] if behs else []
+    samples = []
+    tdrive = tval = 0.0
+    behs, res = [], []
+    for c0 in range(0, max(len(items), 1), max(CH, 1)):
+        behs = number(load_gen(items[c0:c0 + CH]), c0)
+        if not behs:
+            break
+        byid = {b["id"]: b for b in behs}
+        t = time.time()
+        dbehs = behs
+        if not compare:    # values are the implementation's choice: the trace specification is the only judge
+            dbehs = [{"id": b["id"], "spec": b["spec"], "steps": [{"op": s["op"], "args": s.get("args", {})} for s in b["steps"]]} for b in behs]
+        res = vlib.drive(work, lib, dbehs, mods=mods, timeout=drive_timeout)
+        del dbehs
+        tdrive += time.time() - t
+        bad = [r for r in res if r["status"] != "ok"]
+        okres = [r for r in res if r["status"] == "ok"]
+        tv = sample(okres, tv_quick, 99) if quick else okres
+        t = time.time()
+        acc, rej = vlib.tlc_validate(work, trace[0], trace[1], tv, timeout=3000)
+        tval += time.time() - t
+        for r in bad + rej:
+            beh = byid[r["id"]]
+            sig = sig_of(r)
+            if sig_fn:
+                sig = sig_fn(sig, r, beh) or sig
+            key = json.dumps(sig, sort_keys=True)
+            if key in seen:
+                continue
+            seen.add(key)
+            r2 = confirm(work, lib, beh if compare else {"id": beh["id"], "spec": beh["spec"], "steps": [{"op": s["op"], "args": s.get("args", {})} for s in beh["steps"]]}, mods)
+            again = r2["status"] != "ok"
+            if not again and "rejected_at" in r:
+                a, rj = vlib.tlc_validate(work, trace[0], trace[1], [r2], shards=1, tag="cf")
+                again = bool(rj)
+            if again:
+                rep.violation(sig, beh)
+        tot["n"] += len(behs)
+        tot["res"] += len(res)
+        tot["ok"] += len(okres)
+        tot["acc"] += acc
+        ntkeys.update(vlib.beh_key(b) for b in behs if nontrivial(b, mutators))
+        if not samples:
+            samples = [behs[0]["steps"][:6], behs[len(behs) // 2]["steps"][:10]]
+        last = behs[-1]["steps"][:10]
+        del tv, okres, bad, rej, byid
+    nbehs, nres, nok, acc = tot["n"], tot["res"], tot["ok"], tot["acc"]
+    nt = ntkeys
     cov = {
         "states": states, "transitions": trans, "traces_validated_against_impl": acc,
-        "evaluations": len(behs), "distinct_nontrivial": len(nt),
-        "behaviours_replayed": len(res), "replay_ok": len(okres),
+        "evaluations": nbehs, "distinct_nontrivial": len(nt),
+        "behaviours_replayed": nres, "replay_ok": nok,
         "generators": {k: len(v) for k, v in glist.items()},
         "rule": "behaviours generated by TLC from specs/%s (transition cover / bounded-exhaustive histories with an audit epilogue / "
                 "-simulate) and replayed on the library built from /repo under ASan; distinct = hash of the (op,args) sequence; "
                 "non-trivial = at least one state-changing call after the first and one compared observation" % spec,
-        "samples": [behs[0]["steps"][:6] if behs else [], mid[:10], behs[-1]["steps"][:10] if behs else []],
+        "samples": (samples + [last]) if samples else [[], [], []],
         "exhaustive": True,
         "checker_cmd": "tlc %s ; tlc Gen ; harness/drive.py ; tlc %s" % (", ".join(e[1] for e in mc), trace[0]),
         "trusted_base": ["TLC", "harness/drive.py + %s (ctypes call table)" % mods, "ASan/UBSan runtime"],
